@@ -307,7 +307,7 @@ def malformed(ctx):
 
 def run(ctx):
     FM.quiet()
-    n = ctx.n(400, 6000)
+    n = ctx.n(400, 12000)
     for k in range(n):
         eval_case(ctx, gen_case(ctx.rng, k), do_scale=(k % 2 == 0))
     malformed(ctx)
